@@ -119,8 +119,11 @@ func GenTokenMix(r *rand.Rand, id string) (*Case, map[string]codeTerm) {
 			// declared only on a precedence line
 			c.Prec = append(c.Prec, PrecLine{Assoc: []string{"left", "right", "nonassoc"}[r.Intn(3)], Syms: []string{name}})
 		} else {
-			if r.Intn(3) == 0 {
+			switch r.Intn(4) {
+			case 0:
 				tok.Tag = "ia"
+			case 1:
+				c.Types[name] = "ib" // the tag comes from a %type line naming the token
 			}
 			c.Tokens = append(c.Tokens, tok)
 		}
@@ -141,6 +144,9 @@ func GenTokenMix(r *rand.Rand, id string) (*Case, map[string]codeTerm) {
 		if t.Tag != "" {
 			c.Valued = true
 		}
+	}
+	if len(c.Types) > 0 {
+		c.Valued = true
 	}
 	return c, info
 }
